@@ -287,3 +287,92 @@ Definition chk_load_obj (tabs : list (pystr * impexp_class)) (c : pystr * fields
   end.
 Definition diag_dump_attr (c : ptype * pyval * res pyval) := let '(ty, v, _) := c in dump_attr ty v.
 Definition diag_load_attr (c : ptype * pyval * res pyval) := let '(ty, v, _) := c in load_attr ty v.
+
+(* ---- nested session objects: Grant.special_load_dump (issued_token, token_map), DLDict, Database ----
+   An instance carries its class in the attribute "__class__" (the harness adds it); `fresh c` is what the
+   constructor of class c produces before load() fills it. *)
+Definition s_cls : pystr := [95;95;99;108;97;115;115;95;95]%N.                       (* "__class__" *)
+Definition s_issued_token : pystr := [105;115;115;117;101;100;95;116;111;107;101;110]%N.   (* "issued_token" *)
+Definition s_token_map : pystr := [116;111;107;101;110;95;109;97;112]%N.               (* "token_map" *)
+Definition s_db : pystr := [100;98]%N.                                                 (* "db" *)
+Definition s_crypt_config : pystr := [99;114;121;112;116;95;99;111;110;102;105;103]%N. (* "crypt_config" *)
+
+Definition obj_class (o : fields) : option pystr :=
+  match assoc s_cls o with Some (VStr c) => Some c | _ => None end.
+Definition specials_of (tabs : list (pystr * impexp_class)) (c : pystr) : list pystr := map fst (class_special tabs c).
+
+(* issued_token_dump: [{qualified_name(item): item.dump()}] *)
+Definition tok_dump (tabs : list (pystr * impexp_class)) (t : pyval) : res pyval :=
+  match t with
+  | VObj f => match obj_class f with
+              | Some c => d <- dump_fields (class_table tabs c) (specials_of tabs c) f ;; Ok (VDict [(c, VDict d)])
+              | None => Unmodelled
+              end
+  | _ => Unmodelled
+  end.
+(* issued_token_load: importer(class_name)().load(item[class_name]) *)
+Definition tok_load (tabs : list (pystr * impexp_class)) (fresh : pystr -> fields) (x : pyval) : res pyval :=
+  match x with
+  | VDict ((c, VDict d) :: _) => o <- load_fields (class_table tabs c) (specials_of tabs c) (fresh c) d ;; Ok (VObj o)
+  | _ => Unmodelled
+  end.
+
+(* Grant.dump(): the parameter loop, then the special attributes when truthy *)
+Definition grant_dump (tabs : list (pystr * impexp_class)) (g : fields) : res fields :=
+  match obj_class g with
+  | None => Unmodelled
+  | Some c =>
+      base <- dump_fields (class_table tabs c) (specials_of tabs c) g ;;
+      it <- match getattr s_issued_token g with
+            | Some (VList (x :: l)) => toks <- map_res (tok_dump tabs) (x :: l) ;; Ok [(s_issued_token, VList toks)]
+            | Some (VList []) | None => Ok []
+            | Some _ => Unmodelled
+            end ;;
+      tm <- match getattr s_token_map g with
+            | Some (VDict (x :: d)) => Ok [(s_token_map, VDict (x :: d))]     (* class objects are named by the harness *)
+            | Some (VDict []) | None => Ok []
+            | Some _ => Unmodelled
+            end ;;
+      Ok (base ++ it ++ tm)
+  end.
+Definition grant_load (tabs : list (pystr * impexp_class)) (fresh : pystr -> fields) (c : pystr) (d : fields) : res fields :=
+  base <- load_fields (class_table tabs c) (specials_of tabs c) (fresh c) d ;;
+  o1 <- match assoc s_issued_token d with
+        | Some (VList l) => toks <- map_res (tok_load tabs fresh) l ;; Ok (aset s_issued_token (VList toks) base)
+        | None => Ok base
+        | Some _ => Unmodelled
+        end ;;
+  match assoc s_token_map d with
+  | Some v => Ok (aset s_token_map v o1)
+  | None => Ok o1
+  end.
+
+(* two instances agree on everything their class exports through the parameter loop *)
+Definition agree_on (t : list (pystr * ptype)) (sp : list pystr) (o o' : fields) : Prop :=
+  forall a ty, In (a, ty) t -> str_in a sp = false -> getattr a o' = getattr a o.
+
+Definition tok_ok (tabs : list (pystr * impexp_class)) (fresh : pystr -> fields) (t : pyval) : bool :=
+  match t with
+  | VObj f => match obj_class f with
+              | Some c => nodup_keys (class_table tabs c) && obj_ok (class_table tabs c) (specials_of tabs c) f (fresh c)
+              | None => false
+              end
+  | _ => false
+  end.
+Definition grant_ok (tabs : list (pystr * impexp_class)) (fresh : pystr -> fields) (g : fields) : bool :=
+  match obj_class g with
+  | None => false
+  | Some c =>
+      nodup_keys (class_table tabs c) && obj_ok (class_table tabs c) (specials_of tabs c) g (fresh c)
+      && match getattr s_issued_token g with
+         | Some (VList l) => forallb (tok_ok tabs fresh) l
+         | None => true
+         | Some _ => false
+         end
+      && match getattr s_token_map g with Some (VDict _) | None => true | Some _ => false end
+  end.
+
+(* (attributes incl. "__class__", with issued_token a list of token instances; Grant.dump()) *)
+Definition chk_grant_dump (tabs : list (pystr * impexp_class)) (c : fields * res fields) : bool :=
+  let '(g, r) := c in
+  match grant_dump tabs g with Unmodelled => true | m => res_fields_eqb m r end.
